@@ -63,6 +63,52 @@ func genC12(seed int64, tier string) []caseOut {
 		n = 2000
 	}
 	r := rand.New(rand.NewSource(seed + 7))
+	emitList := func(label string, doc M, ps A) {
+		res, ok, panicked, intact := implApply(doc, ps)
+		h := sha256.Sum256([]byte(fmt.Sprint(doc, ps)))
+		out = append(out, caseOut{
+			Coq: fmt.Sprintf("(C12P %s %s %s %s)", cObj(normJSON(doc).(map[string]interface{})), cJSON(normJSON(ps))[len("(JArr "):len(cJSON(normJSON(ps)))-1],
+				coqOptObj(res, ok), cBool(intact && !panicked)),
+			Rec:    map[string]interface{}{"document": doc, "patches": ps, "impl_ok": ok, "impl_result": res, "inputs_intact": intact, "impl_panicked": panicked},
+			Label:  label,
+			NonTri: fmt.Sprintf("%x", h[:8]),
+		})
+	}
+	// systematic part (independent of the seed): a replace followed by patches that work on what it
+	// installed (the replace patch's own value must stay as the caller gave it), and a failing patch
+	// at each position in front of and behind a replace (the list fails as a whole)
+	{
+		fr := rand.New(rand.NewSource(12))
+		mkDoc := func() M {
+			return M{"publicKey": A{validKey(fr, "old1")}, "service": A{validService(fr, "olds")}, "other": M{"k": 1.0}, "arr": A{1.0, 2.0}}
+		}
+		mkReplace := func() M {
+			return M{"action": "replace", "document": M{"publicKeys": A{validKey(fr, "k1"), validKey(fr, "k2"), validKey(fr, "k3")},
+				"services": A{validService(fr, "s1"), validService(fr, "s2"), validService(fr, "s3")}}}
+		}
+		bad := func() M {
+			return M{"action": "ietf-json-patch", "patches": A{M{"op": "remove", "path": "/missing/member"}}}
+		}
+		note := func() M {
+			return M{"action": "ietf-json-patch", "patches": A{M{"op": "add", "path": "/note", "value": "x"}}}
+		}
+		for j, id := range []string{"k1", "k2", "k3"} {
+			emitList(fmt.Sprintf("systematic,replace-then-remove-key-%d", j), mkDoc(), A{mkReplace(), M{"action": "remove-public-keys", "ids": A{id}}})
+			emitList(fmt.Sprintf("systematic,replace-then-remove-service-%d", j), mkDoc(), A{mkReplace(), M{"action": "remove-services", "ids": A{"s" + id[1:]}}})
+			emitList(fmt.Sprintf("systematic,replace-then-restate-key-%d", j), mkDoc(), A{mkReplace(), M{"action": "add-public-keys", "publicKeys": A{validKey(fr, id)}}})
+			emitList(fmt.Sprintf("systematic,replace-then-restate-service-%d", j), mkDoc(), A{mkReplace(), M{"action": "add-services", "services": A{validService(fr, "s"+id[1:])}}})
+		}
+		emitList("systematic,replace-then-remove-two-keys-two-services", mkDoc(), A{mkReplace(), M{"action": "remove-public-keys", "ids": A{"k1", "k2"}},
+			M{"action": "remove-services", "ids": A{"s1", "s3"}}})
+		emitList("systematic,add-then-remove-same-list", mkDoc(), A{M{"action": "add-public-keys", "publicKeys": A{validKey(fr, "a1"), validKey(fr, "a2"), validKey(fr, "a3")}},
+			M{"action": "remove-public-keys", "ids": A{"a1"}}, M{"action": "remove-public-keys", "ids": A{"old1"}}})
+		emitList("systematic,fails-at-1-then-replace", mkDoc(), A{bad(), mkReplace()})
+		emitList("systematic,fails-at-2-then-replace", mkDoc(), A{note(), bad(), mkReplace()})
+		emitList("systematic,fails-at-2-between-replaces", mkDoc(), A{mkReplace(), bad(), mkReplace()})
+		emitList("systematic,fails-at-1-then-two-replaces", mkDoc(), A{bad(), mkReplace(), note(), mkReplace()})
+		emitList("systematic,fails-at-3-after-replace", mkDoc(), A{note(), mkReplace(), bad()})
+		emitList("systematic,fails-at-1-then-add", mkDoc(), A{bad(), M{"action": "add-public-keys", "publicKeys": A{validKey(fr, "a1")}}})
+	}
 	for i := 0; i < n; i++ {
 		doc := M{"publicKey": A{validKey(r, "key1"), validKey(r, "key2")}, "service": A{validService(r, "svc1")}, "other": M{"k": 1.0}, "arr": A{1.0, 2.0}}
 		switch r.Intn(4) {
@@ -99,15 +145,7 @@ func genC12(seed int64, tier string) []caseOut {
 				M{"action": "add-services", "services": A{validService(r, "svc9")}}, M{"action": "add-services", "services": A{validService(r, "svc9")}}}, ps...)
 			label += ",id-added-twice"
 		}
-		res, ok, panicked, intact := implApply(doc, ps)
-		h := sha256.Sum256([]byte(fmt.Sprint(doc, ps)))
-		out = append(out, caseOut{
-			Coq: fmt.Sprintf("(C12P %s %s %s %s)", cObj(normJSON(doc).(map[string]interface{})), cJSON(normJSON(ps))[len("(JArr "):len(cJSON(normJSON(ps)))-1],
-				coqOptObj(res, ok), cBool(intact && !panicked)),
-			Rec:    map[string]interface{}{"document": doc, "patches": ps, "impl_ok": ok, "impl_result": res, "inputs_intact": intact, "impl_panicked": panicked},
-			Label:  label,
-			NonTri: fmt.Sprintf("%x", h[:8]),
-		})
+		emitList(label, doc, ps)
 	}
 	return out
 }
